@@ -156,10 +156,14 @@ def h_blocking(ctx):
     stmt, suffix, option = BLOCKING_CALLS[call]
     if call == "net-short" and not imports:
         ctx.assume(False)     # a bare TcpStream::connect without `use std::net::TcpStream` could be tokio's: not judged
+    tokio_import = call == "net-short" and imports and ctx.flag("type_imported_from_tokio_instead")
     body = [stmt] if WRAPPERS[wrapper] is None else [WRAPPERS[wrapper][0], "    " + stmt, WRAPPERS[wrapper][1]]
     rel = 0 if WRAPPERS[wrapper] is None else 1
     lines, first = render_fn(context, "target", ["let mut out: Vec<String> = Vec::new();"] + body + ["let _ = out;"], is_async)
     head = ["use std::fs;", "use std::thread;", "use std::net;", "use std::net::TcpStream;", ""] if imports else []
+    if tokio_import:
+        head = ["use std::fs;", "use std::thread;", "use tokio::net::TcpStream;", ""]
+        suffix = None         # tokio's TcpStream is not a blocking API
     line_no = len(head) + first + 2 + rel
     expected = []
     is_test = CONTEXTS[context][3]
